@@ -395,7 +395,14 @@ static void run_case (char *line) {
   MIR_set_error_func (ctx, err_func);
   if (setjmp (err_jmp)) {
     printf ("E:%s\n", err_name (err_code));
-    return; /* context abandoned */
+    if (setjmp (err_jmp) == 0) { /* best-effort teardown; a complaint about unfinished items is swallowed */
+      if (gen_inited) {
+        gen_inited = 0;
+        MIR_gen_finish (ctx);
+      }
+      MIR_finish (ctx);
+    }
+    return;
   }
   int have_g = -1;
   MIR_module_t m = MIR_new_module (ctx, "m");
